@@ -278,10 +278,16 @@ def run_harness(root, cases_path, out_path, timeout, per_case_timeout=60, binary
                     now = time.time()
                     if sz != last_size:
                         last_size, last_change = sz, now
-                    elif now - last_change > per_case_timeout or now > t_end + per_case_timeout:
+                    elif now - last_change > per_case_timeout:
                         p.kill()
                         p.wait()
                         status = "HANG"
+                        break
+                    elif now > t_end + per_case_timeout:
+                        # still answering, but the stream's time budget is used up: not a hang, the rest is not run
+                        p.kill()
+                        p.wait()
+                        status = "BUDGET"
                         break
             if status != "HANG":
                 if p.returncode == 66:
@@ -298,6 +304,11 @@ def run_harness(root, cases_path, out_path, timeout, per_case_timeout=60, binary
             else:
                 break
         pos += n
+        if status == "BUDGET":
+            for l in lines[pos:]:
+                c = l.split(" ", 1)[0]
+                results[c] = "%s I=BUDGET" % c
+            break
         if pos < len(lines) and status != "ok" or (status == "ok" and n < len(chunk)):
             cid = lines[pos].split(" ", 1)[0]
             results[cid] = "%s I=%s" % (cid, status if status != "ok" else "CRASH")
@@ -348,6 +359,10 @@ def compare_stream(root, pid, stream_cfg, cases_path, work, tier):
             case = case.rstrip("\n")
             cid, I = parse_line(il)
             mid, M = parse_line(ml)
+            if I.get("I") == "BUDGET":
+                # the stream's time budget ran out before this operation: not run, not judged
+                stats["budget_skipped"] = stats.get("budget_skipped", 0) + 1
+                continue
             stats["evaluations"] += 1
             body = case.split(" ", 1)[1] if " " in case else case
             v = rule(body, I, M)   # dict(corr_ok, prop_ok, nontrivial, bucket, why)
